@@ -5,7 +5,7 @@ import TfPwaV.Model.VarsF
 `C08 fit <fixSame> <fixStd> <polar> <lbfgsb> <newtonRm> <hessOpt> <minuitSet> <exceptRm> <method> <stdc>
       | <setup ops of C16, separated by ;> | <bounds: n (name lo hi)*> | <abort> <hasHessInv> <success> <fval> <x: n v*>
       | <evals: (t|r) n v* separated by ;>`
-answer: `<dump of the state before the fit> # <dump of the final state> # ok <ndf> <success> <minNll> <k=v,...>` or `… # raised <exc>` -/
+answer: `<dump of the state before the fit> # <dump of the state when the minimiser returns (bounds registered)> # <dump of the final state> # ok <ndf> <success> <minNll> <k=v,...>` or `… # raised <exc>` -/
 namespace TfPwaV.FitF
 open TfPwaV.Vars TfPwaV.Util TfPwaV.Fit TfPwaV.VarsF
 
@@ -54,7 +54,8 @@ def handle : List String → Option String
         let evals ← (splitOps evs).mapM pEval
         let o : Oracle Float := ⟨evals, ab, x, fv, su, hh⟩
         let r := fit arithF cfg ⟨f1, f2, f3, f4, f5⟩ m stdc s0 b o
-        some (dump s0 .none ++ "#" ++ dump r.1 .none ++ "#" ++ showOutcome r.2)
+        let mid := afterEvals arithF cfg m s0 b o
+        some (dump s0 .none ++ "#" ++ dump mid .none ++ "#" ++ dump r.1 .none ++ "#" ++ showOutcome r.2)
       | _ => none
     | _ => none
   | _ => none
